@@ -375,6 +375,12 @@ func (r *Run) eqVal(x, y Value) *Term {
 		return mkBool(isNilish(y))
 	case *Term:
 		if x.S.K == SFP {
+			if di, ok := r.fpSecs[x]; ok {
+				if yt := toFP(y); yt.Const && yt.Float() == 0 {
+					// side lemma: d.Seconds() == 0 iff d == 0
+					return tAnd(tEq(di.sec, mkBV(64, 0)), tEq(di.sub, mkBV(64, 0)))
+				}
+			}
 			return tFPCmp("fp.eq", x, toFP(y))
 		}
 		return tEq(x, y.(*Term))
@@ -602,6 +608,9 @@ func (r *Run) conv(tDst, tSrc types.Type, x Value) Value {
 						if b, ok := r.krBound[xt.Args[0]]; ok && b < 1<<53 {
 							return tBVResize(xt.Args[0], wd, true)
 						}
+					}
+					if di, ok := r.fpSecs[xt]; ok {
+						return tBVResize(di.sec, wd, true) // side lemma: trunc(d.Seconds()) = whole seconds
 					}
 					return tFPToInt(xt, wd)
 				}
